@@ -32,8 +32,8 @@
          the rendered text is accepted (C06_history_runs, C06_history_accepted).
    Hypotheses on values (each shown necessary by a generated case or a known finding): strings do not start with
    a quote character (outside the claim), are valid UTF-8, lists are not empty, a header name given as one string
-   is not a condition keyword and does not start with "not" (the factory would take it for a negation -- recorded
-   in DESIGN.md), a string argument of an action does not start with ':'; marker lines contain no line feed.
+   is not a condition keyword nor "not" + a condition keyword (a header called "notes" is fine since the fix
+   recorded in known_findings.json: the proof forced the hypothesis and the real code failed on it), a string argument of an action does not start with ':'; marker lines contain no line feed.
    Not proved: keep/setflag/addflag/removeflag (definitions outside wf_def: known findings of C01/C03), tag orders
    other than the documented one (covered by the differential run and the strict validator). *)
 From Coq Require Import String.
